@@ -165,7 +165,12 @@ func oneCase(c *vk.Ctx, i int, r *rand.Rand, p *sem.Prepared, contextual []*open
 							if f == "" && kind == "userset" && !fellBack && !o2.Allowed && o1.Allowed && k == ref.T {
 								// the weighted-graph engine denies a userset subject that the default engine (and the
 								// reference) grants, without the detector noticing: listed finding, see known_findings.json
-								f = "C03-v2-userset-subject-silent-divergence"
+								uo, ur := ref.UserParts(subj)
+								if sem.V2UsersetSubjectShortcut(p.Ref, typeOf(n[0]), n[1], typeOf(uo), ur) {
+									f = "C03-v2-userset-subject-silent-divergence"
+								} else {
+									c.Count("userset_subject_denials_outside_the_listed_shapes", 1)
+								}
 							}
 							key := fmt.Sprintf("silent-diff|%s|%s|%s", kind, ref.Shape(p.Ref.Rewrite(typeOf(n[0]), n[1])), k)
 							what := fmt.Sprintf("Check(%s#%s@%s, ctx=%s): weighted-graph engine answers %s, default engine answers %s, and the breaking-change detector reported nothing (reference %s, mode %q)", n[0], n[1], subj, gen.CtxString(rctx), o2, o1, k, mode)
